@@ -257,8 +257,12 @@ where
             &VectorDiffContainerStreamElement<S>,
         ) -> Ordering,
     {
-        let mut initial_values = initial_values.into_iter().enumerate().collect::<Vector<_>>();
+        // Sorted as a `Vec`: as of imbl 5.0, `Vector::sort_by` recurses once per
+        // item on runs of equal items and exhausts the stack on a few thousand
+        // of them.
+        let mut initial_values = initial_values.into_iter().enumerate().collect::<Vec<_>>();
         initial_values.sort_by(|(_, left), (_, right)| compare(left, right));
+        let initial_values = initial_values.into_iter().collect::<Vector<_>>();
 
         (
             initial_values.iter().map(|(_, value)| value.clone()).collect(),
@@ -340,12 +344,12 @@ where
                     .into_iter()
                     .enumerate()
                     .map(|(unsorted_index, value)| (unsorted_index + offset, value))
-                    .collect::<Vector<_>>();
+                    .collect::<Vec<_>>();
 
-                // Now, we can sort `new_values`.
+                // Now, we can sort `new_values` (as a `Vec`, see `SortImpl::new`).
                 new_values.sort_by(|(_, left), (_, right)| compare(left, right));
 
-                new_values
+                new_values.into_iter().collect::<Vector<_>>()
             };
 
             // If `buffered_vector` is empty, all `new_values` are appended.
@@ -698,10 +702,11 @@ where
         }
         VectorDiff::Reset { values: new_values } => {
             // Calculate the `new_values` with their `unsorted_index`.
-            let mut new_values = new_values.into_iter().enumerate().collect::<Vector<_>>();
+            let mut new_values = new_values.into_iter().enumerate().collect::<Vec<_>>();
 
-            // Now, we can sort `new_values`.
+            // Now, we can sort `new_values` (as a `Vec`, see `SortImpl::new`).
             new_values.sort_by(|(_, left), (_, right)| compare(left, right));
+            let new_values = new_values.into_iter().collect::<Vector<_>>();
 
             // Finally, update `buffered_vector` and create the `VectorDiff::Reset`.
             *buffered_vector = new_values.clone();
